@@ -548,16 +548,16 @@ Qed.
 Lemma roundtrip_block : forall KS r C D b hint cb C',
   0 < KS -> WF KS C -> tables_eq C D -> b_txs b <> [] ->
   compress_block KS r C b hint = Okay (cb, C') ->
-  exists D', decompress_block KS r D cb = Okay (b, D') /\ tables_eq C' D' /\ WF KS C'.
+  exists D', decompress_block KS r D cb = Okay (strip b, D') /\ tables_eq C' D' /\ WF KS C'.
 Proof.
   intros KS r C D b hint cb C' H0 Hwf Heq Hne H. unfold compress_block in H.
   set (t := b_time b) in *.
-  destruct (prepare r t C (pconst []) (concat (b_txs b))) as [acc|] eqn:Ep; [|discriminate].
-  destruct (compress_txs KS r t C (into_compression_context KS C acc) (b_txs b)) as [[ctxs cx]|] eqn:Ec;
+  destruct (prepare r t C (pconst []) (concat (b_items b))) as [acc|] eqn:Ep; [|discriminate].
+  destruct (compress_txs KS r t C (into_compression_context KS C acc) (b_items b)) as [[ctxs cx]|] eqn:Ec;
     [|discriminate].
   unfold finalize in H. inversion H; subst cb C'. clear H.
   destruct (prepare_spec _ _ _ _ _ _ Ep) as [_ Hcov].
-  destruct (compress_txs_spec KS r t C acc H0 Hwf (b_txs b) _ ctxs cx (cinv_init KS C acc H0 Hwf) Hcov Ec)
+  destruct (compress_txs_spec KS r t C acc H0 Hwf (b_items b) _ ctxs cx (cinv_init KS C acc H0 Hwf) Hcov Ec)
     as (Hinv & _ & Hok).
   set (regs := pinit (fun s => reorder (pget hint s) (changes (pget cx s)))).
   assert (Hregs : forall s, same_regs (pget regs s) (changes (pget cx s))).
@@ -568,14 +568,16 @@ Proof.
   assert (HD1 : forall s, reg (pget D1 s) = reg_after (pget regs s) t (reg (pget C s))).
   { intros s. unfold D1, write_to_registry. rewrite pget_pinit, reg_write_all.
     destruct (Heq s) as [E _]. rewrite E. reflexivity. }
-  assert (Hmap : mapR (mapR (decompress_item KS r t D1)) ctxs = Okay (b_txs b)).
+  assert (Hmap : mapR (mapR (decompress_item KS r t D1)) ctxs = Okay (b_items b)).
   { apply mapR_txs_ok with (Q := keys_ok KS r t C acc cx); [|exact Hok].
     intros its cks Hk. unfold keys_ok in Hk.
     apply mapR_items_ok with (P := fun s v k => kok KS r t C acc cx s v k); [|exact Hk].
     intros s v k Hkok. eapply decompress_item_ok; eauto. }
-  rewrite Hmap. destruct (b_txs b) as [|tx0 txs0] eqn:Eb; [congruence|]. rewrite <- Eb.
+  rewrite Hmap. destruct (b_items b) as [|tx0 txs0] eqn:Eb.
+  { unfold b_items in Eb. apply map_eq_nil in Eb. congruence. }
+  rewrite <- Eb.
   exists D1. split; [|split].
-  - f_equal. f_equal. destruct b; cbn in *. subst t. congruence.
+  - f_equal. f_equal. unfold strip, b_items. rewrite map_map. reflexivity.
   - intros s. unfold D1, write_to_registry. rewrite !pget_pinit.
     apply tabs_eq_write_all. destruct (Heq s) as [E1 E2]. split; cbn [commit set_latest_assigned_key reg idx]; assumption.
   - intros s. unfold write_to_registry. rewrite !pget_pinit.
@@ -588,8 +590,8 @@ Qed.
 (* ------------------------------------------------------------------ *)
 (* histories                                                           *)
 
-(* every block for which compression returns a compressed block is reproduced exactly by the
-   decompressor, and the tables of both sides stay equal; a block whose compression is refused
+(* every block for which compression returns a compressed block is reproduced by the decompressor
+   up to its malleable fields, and the tables of both sides stay equal; a block whose compression is refused
    produces nothing and changes nothing *)
 Fixpoint history_ok (KS r : N) (C D : state) (ops : list (op * per (list N))) : Prop :=
   match ops with
@@ -600,7 +602,7 @@ Fixpoint history_ok (KS r : N) (C D : state) (ops : list (op * per (list N))) : 
       | Fail _ => history_ok KS r C D rest
       | Okay (cb, C') =>
           match decompress_block KS r D cb with
-          | Okay (b', D') => b' = b /\ tables_eq C' D' /\ history_ok KS r C' D' rest
+          | Okay (b', D') => b' = strip b /\ tables_eq C' D' /\ history_ok KS r C' D' rest
           | Fail _ => False
           end
       end
